@@ -187,12 +187,23 @@ def change_op():
     )
 
 
+def macro_op():
+    """fixed skeletons of related steps whose parameters are generated (which statement, which file, -j, schedule):
+    they construct multi-step shapes that independent draws would need ~1e5 histories to line up"""
+    return st.fixed_dictionaries(dict(op=st.sampled_from(['m_swap_then_edit', 'm_rehide_then_edit', 'm_fail_then_fix']),
+                                      a=st.integers(0, 30), b=st.integers(0, 30), c=st.integers(0, 5),
+                                      j=st.sampled_from([1, 2, 3]), sched=SCHED))
+
+
 def histories(max_ops=8, with_failures=True):
     """rounds of (1-3 changes, then a build): every build follows a change; a failing build is usually followed by
     a clean retry"""
     builds = [build_op(), build_op(), build_op()]
     if with_failures:
         builds.append(build_op(fail=True))
-    rnd = st.tuples(st.lists(change_op(), min_size=1, max_size=3), st.one_of(*builds))
+    rnd = st.one_of(st.tuples(st.lists(change_op(), min_size=1, max_size=3), st.one_of(*builds)),
+                    st.tuples(st.lists(change_op(), min_size=1, max_size=3), st.one_of(*builds)),
+                    st.tuples(st.lists(change_op(), min_size=1, max_size=3), st.one_of(*builds)),
+                    st.tuples(st.just([]), macro_op()))
     return st.lists(rnd, min_size=1, max_size=max(1, max_ops // 2)).map(
         lambda rs: [op for ch, b in rs for op in (ch + [b])])
